@@ -424,9 +424,66 @@ def _pname(p):
     return "".join("A" if x else "-" for x in p)
 
 
+def h_extremes(ctx):
+    """Concrete packets with every field at 0, at its documented maximum and
+    at a one-bit pattern, through the real struct module: encode, compare
+    with the documented layout written out by hand, decode, compare.  (The
+    symbolic units cover all values when the code packs through the module's
+    `struct` name; this unit also runs code that packs some other way.)"""
+    import struct as real_struct
+    from rig.machine_control.packets import SDPPacket, SCPPacket
+    FM = dict(tag=0xff, dest_port=7, dest_cpu=31, src_port=7, src_cpu=31,
+              dest_x=0xff, dest_y=0xff, src_x=0xff, src_y=0xff)
+    kind = ctx.pick(["zero", "max", "high-bit", "low-bit"])
+
+    def val(name, top):
+        return {"zero": 0, "max": top, "low-bit": 1,
+                "high-bit": (top + 1) >> 1}[kind]
+    f = {k: val(k, v) for k, v in FM.items()}
+    reply = ctx.pick([True, False])
+    nargs = ctx.pick([0, 1, 2, 3])
+    data = ctx.pick([b"", b"\x01", b"\xff" * 5])
+    args = [val("arg", 0xffffffff) for _ in range(nargs)] + \
+        [None] * (3 - nargs)
+    cmd, seq = val("cmd_rc", 0xffff), val("seq", 0xffff)
+    hdr = b"\0\0" + bytes([0x87 if reply else 0x07, f["tag"],
+                            (f["dest_port"] << 5) | f["dest_cpu"],
+                            (f["src_port"] << 5) | f["src_cpu"],
+                            f["dest_y"], f["dest_x"], f["src_y"], f["src_x"]])
+    try:
+        p = SCPPacket(reply, f["tag"], f["dest_port"], f["dest_cpu"],
+                      f["src_port"], f["src_cpu"], f["dest_x"], f["dest_y"],
+                      f["src_x"], f["src_y"], cmd, seq, args[0], args[1],
+                      args[2], data)
+        bs = p.bytestring
+        want = hdr + real_struct.pack("<2H", cmd, seq) + b"".join(
+            real_struct.pack("<I", a) for a in args if a is not None) + data
+        ctx.observe(kind, reply, nargs, len(bs))
+        ctx.prove(bs == want, "layout-extreme-values", (kind, bs, want))
+        q = SCPPacket.from_bytestring(bs, n_args=nargs)
+        same = all(getattr(q, k) == getattr(p, k) for k in list(FM) + [
+            "reply_expected", "cmd_rc", "seq", "arg1", "arg2", "arg3",
+            "data"])
+        ctx.prove(same, "roundtrip-extreme-values", (kind, nargs))
+        s = SDPPacket(reply, f["tag"], f["dest_port"], f["dest_cpu"],
+                      f["src_port"], f["src_cpu"], f["dest_x"], f["dest_y"],
+                      f["src_x"], f["src_y"], data)
+        ctx.prove(s.bytestring == hdr + data, "layout-extreme-values",
+                  (kind, "sdp"))
+        t = SDPPacket.from_bytestring(s.bytestring)
+        ctx.prove(all(getattr(t, k) == getattr(s, k) for k in list(FM) + [
+            "reply_expected", "data"]), "roundtrip-extreme-values", "sdp")
+        ctx.witness("extremes")
+    except Exception as e:
+        ctx.observe(type(e).__name__)
+        ctx.prove(False, "encode-raised-on-documented-values",
+                  (kind, nargs, repr(e)))
+
+
 def units(tier, seed):
     thorough = tier == "thorough"
-    us = []
+    us = [Unit("extreme field values (concrete)", h_extremes, {},
+               witnesses=("extremes",))]
     lens = tuple(range(0, 25 if thorough else 17))
     wlens = tuple(range(0, 17)) if thorough else (0, 5)
     dlens = tuple(range(10, 39 if thorough else 27))
@@ -470,4 +527,9 @@ def units(tier, seed):
                     scp=True, pattern=pat, widths=w, lengths=wlens,
                     masked=True), split=3,
                 witnesses=("encoded", "struct-error")))
+    # code that hands a symbolic field to a C function needing a real int
+    # makes the engine enumerate values: give up early (inconclusive) rather
+    # than after 4096 values per field
+    for u in us:
+        u.max_concretise = 40
     return us
